@@ -946,6 +946,17 @@ def handmade_cases():
                             no_v6_files=True, bad_kinds=[],
                             socks=[dict(proto="unix", inode=9001, holders=[[50, 4]], uid=0, utype=utype, path=path,
                                         flags=0, ust=1, refs=2)]))
+    # sockets inherited across fork(): one holder in each of two processes (+ a dup'ed descriptor)
+    two = [dict(pid=50, readable=True, noise=[]), dict(pid=60, readable=True, noise=[])]
+    out.append(dict(procs=two, no_v6_files=True, bad_kinds=[],
+                    socks=[dict(proto="unix", inode=9100, holders=[[50, 4], [60, 4]], uid=0, utype=STREAM,
+                                path="/run/shared.sock", flags=0x10000, ust=1, refs=2)]))
+    out.append(dict(procs=two, no_v6_files=True, bad_kinds=[],
+                    socks=[dict(proto="unix", inode=9101, holders=[[50, 4], [50, 9]], uid=0, utype=DGRAM,
+                                path="/run/dup.sock", flags=0, ust=1, refs=2)]))
+    out.append(dict(procs=two, no_v6_files=True, bad_kinds=[],
+                    socks=[dict(proto="tcp", inode=9102, holders=[[50, 4], [60, 4], [60, 7]], uid=0, st=10, txq=0, rxq=0,
+                                l=["7f000001", 8080], r=[z4, 0])]))
     for bk in BAD_KIND_STRINGS:
         out.append(dict(procs=[dict(pid=50, readable=True, noise=[])], no_v6_files=False, socks=[],
                         bad_kinds=[["s", bk]]))
@@ -956,9 +967,10 @@ def handmade_cases():
 
 def plan(tier, seed):
     n = 10_000 if tier == "quick" else 200_000
-    shards = [dict(kind="fixed"), dict(kind="live")]
+    shards = [dict(kind="fixed")]
     for s, c in harness.split_range(n, 15 if tier == "quick" else 46):
         shards.append(dict(kind="gen", seed=seed, start=s, count=c))
+    shards.append(dict(kind="live"))
     return shards
 
 
